@@ -141,7 +141,12 @@ impl Check for C17 {
         let mut lim = Limits::quick();
         lim.max_input_len = tier.pick(300, 3000);
         lim.max_work = tier.pick(20_000, 300_000);
-        let p3 = (cfg_strategy(lim), ctx_strategy(), seed_strategy(), seed_strategy(), (any::<u8>(), any::<u64>()), (any::<u8>(), any::<u64>())).prop_map(|(cfg, ctx, nonce_seed, rand_seed, (s1, r1), (s2, r2))| {
+        let p3 = (cfg_strategy(lim), ctx_strategy(), seed_strategy(), seed_strategy(), (any::<u8>(), any::<u64>()), (any::<u8>(), any::<u64>()), any::<u8>()).prop_map(|(mut cfg, ctx, nonce_seed, rand_seed, (s1, r1), (s2, r2), single)| {
+            // "all aggregator counts": a single aggregator is a legal instance (no helper, the
+            // leader's share is the encoding itself); the leader-difference clause still applies
+            if single % 16 == 0 {
+                cfg.n_agg = 1;
+            }
             let m1 = meas_from(&cfg.inst, s1, r1);
             let m2 = meas_from(&cfg.inst, s2, r2);
             Case::Prio3 { cfg, ctx, nonce_seed, rand_seed, m1, m2 }
